@@ -1,0 +1,19 @@
+//go:build verif
+
+// Package verifexport re-exports, for the out-of-module verification harness only, a few APIs of
+// pkg/internal/* packages (Go's internal rule forbids importing them from another module).
+// No logic lives here: type aliases and thin forwarding functions.
+package verifexport
+
+import "go.minekube.com/gate/pkg/internal/future"
+
+// C42Future is future.Future instantiated at int.
+type C42Future = future.Future[int]
+
+// C42New forwards to future.New[int].
+func C42New() *C42Future { return future.New[int]() }
+
+// C42ThenCompose forwards to future.ThenCompose[int, int].
+func C42ThenCompose(f *C42Future, callback func(int) *C42Future) *C42Future {
+	return future.ThenCompose[int, int](f, callback)
+}
